@@ -1,5 +1,6 @@
 import PedVerif.Lemmas.CheckerEnvs
 import PedVerif.Lemmas.CheckerNoTV
+import PedVerif.Lemmas.CallLayer4
 /-!
 # C08 — checking failures surface only as PedanticException (checker level)
 
@@ -41,3 +42,75 @@ example : checkType envW (fun _ _ => .raisedOther) (.special 3) (.inst 0) = .ped
 example : checkType envW (fun k _ => .ok (k == 3)) (.seq .typing .list (.special 3)) (.coll 4 [.inst 0]) = .accept := by decide
 
 end PedVerif.Checker
+
+/-! ## wrapper level: the @pedantic / @require_kwargs wrapper adds no exception type of its own -/
+namespace PedVerif.Call
+open PedVerif.Checker PedVerif.Gen.CallTables
+
+/-- the outcomes the property allows: a value, a PedanticException, or the very exception the body raised -/
+def Caller.allowed : Caller → Bool
+  | .ret | .retGen | .pedCallWithArgs | .pedTypeCheck | .pedTVMismatch | .bodyExc _ => true
+  | .bindTypeError | .escape _ => false
+
+/-- the property as stated, without the two guards below (false: region `bodyMentionsStaticmethod`) -/
+def WrapperAddsNothing_full : Prop :=
+  ∀ (env : Env) (orc : Nat → Val → Raw) (f : Fn) (args : List Val) (kw : List (NameId × Val)) (body : BodyOut),
+    (∀ k v, orc k v ≠ .raisedTV) → (f.firstIsSelf && args.isEmpty) = false →
+    f.binds (fwdPosOf f args).length (kw.map (·.1)) = true → (runCall env orc f args kw body).caller.allowed = true
+
+/-- **C08 (wrapper level).** For every call that Python itself accepts - whatever the annotations (supported or not: the
+    oracle is arbitrary) and whatever the values - the caller sees a value, a PedanticException or the body's own
+    exception; never an IndexError / TypeError / … of the checking machinery.  Guard: the `clazz` evaluation does not fail
+    (its complement is the region `bodyMentionsStaticmethod`: a plain function whose text contains the static needle). -/
+theorem wrapper_adds_nothing (env : Env) (orc : Nat → Val → Raw) (horc : ∀ k v, orc k v ≠ .raisedTV) (f : Fn) (args : List Val)
+    (kw : List (NameId × Val)) (body : BodyOut)
+    (hinit : (f.firstIsSelf && args.isEmpty) = false)                       -- Python itself supplies self
+    (hc : f.clazzFails args = false)
+    (hbinds : f.binds (fwdPosOf f args).length (kw.map (·.1)) = true) :     -- Python accepts the invocation
+    (runCall env orc f args kw body).caller.allowed = true := by
+  have hinv : (invoke env orc f args kw body).caller.allowed = true := by
+    unfold invoke
+    simp only [hbinds, Bool.not_true, Bool.false_eq_true, ↓reduceIte]
+    cases f.mode with
+    | requireKwargs => cases body <;> rfl
+    | pedantic =>
+      simp only [retCheck]
+      cases body with
+      | raises e => rfl
+      | ret r =>
+        simp only
+        cases f.retAnn with
+        | none => rfl
+        | some a =>
+          simp only [hc, Bool.false_eq_true, ↓reduceIte]
+          split
+          · cases f.genRet <;> rfl
+          · rcases checkVal_cases env orc horc f args hc a r with ⟨h, _⟩ | ⟨h, _⟩ <;> simp [h, Caller.allowed]
+  by_cases hkw : (f.shouldHaveKwargs && !(f.argsWithoutSelf args).isEmpty) = true
+  · unfold runCall; simp [hinit, hkw, Caller.allowed]
+  · have hkw' : (f.shouldHaveKwargs && !(f.argsWithoutSelf args).isEmpty) = false := by simpa using hkw
+    cases hm : f.mode with
+    | requireKwargs => rw [runCall_requireKwargs _ _ _ _ _ _ hm hinit hkw']; exact hinv
+    | pedantic =>
+      rw [runCall_pedantic _ _ _ _ _ _ hm hinit hkw']
+      cases hca : checkArguments env orc f args kw with
+      | none => exact hinv
+      | some c => rw [checkArguments_some_tc env orc horc f args kw hc c hca]; rfl
+
+/-- `@pedantic def f(a: int) -> int` with a comment mentioning the static needle -/
+def witnessStaticText : Fn :=
+  { name := "f", flags := flagsOfSource "f" "@pedantic\ndef f(a: int) -> int:\n    # no @staticmethod here\n    return a\n",
+    qualDotted := false, params := [{ name := 1, kind := .posOrKw, ann := some (.cls 2), dflt := none }], selfName := 0,
+    firstIsSelf := false, isBound := false, retAnn := some (.cls 2), genRet := .notGenType, flavour := .sync, mode := .pedantic }
+/-- the region `bodyMentionsStaticmethod`: the keyword call `f(a=1)`, which Python accepts, ends in an IndexError -/
+theorem wrapper_escapes_bodyMentionsStaticmethod :
+    (runCall envW (fun _ _ => .raisedOther) witnessStaticText [] [(1, .lit (.int 1))] (.ret (.lit (.int 1)))).caller = .escape "IndexError" ∧
+    witnessStaticText.clazzFails ([] : List Val) = true ∧
+    witnessStaticText.binds (fwdPosOf witnessStaticText []).length [1] = true := by decide
+theorem WrapperAddsNothing_full_is_false : ¬ WrapperAddsNothing_full := by
+  intro h
+  have w := wrapper_escapes_bodyMentionsStaticmethod
+  have := h envW (fun _ _ => .raisedOther) witnessStaticText [] [(1, .lit (.int 1))] (.ret (.lit (.int 1))) (by intro _ _; simp) rfl w.2.2
+  rw [w.1] at this; simp [Caller.allowed] at this
+
+end PedVerif.Call
